@@ -20,6 +20,12 @@ pub struct Decoded { pub text: Ghost<Seq<char>> }
 #[verifier::external_body]
 pub fn percent_decode_utf8(s: &str) -> (r: Result<Decoded, Utf8Error>)
     ensures (r is Ok) == (pct_decode(s@) is Some), r is Ok ==> r->Ok_0.text@ == pct_decode(s@)->Some_0 { unimplemented!() }
+/// percent_decode_str(s).decode_utf8_lossy(): the decoding if it is valid UTF-8, otherwise some text with U+FFFD
+/// replacements
+pub uninterp spec fn lossy_text(s: Seq<char>) -> Seq<char>;
+#[verifier::external_body]
+pub fn percent_decode_utf8_lossy(s: &str) -> (r: Decoded)
+    ensures r.text@ == (if pct_decode(s@) is Some { pct_decode(s@)->Some_0 } else { lossy_text(s@) }) { unimplemented!() }
 impl Decoded {
     #[verifier::external_body]
     pub fn as_ref(&self) -> (r: &str) ensures r@ == self.text@ { unimplemented!() }
